@@ -57,18 +57,34 @@ Proof.
   intros st h st' ws t o H Hc. rewrite <- (run_abs h st st' ws H). exact (step_pause_close st' t o Hc).
 Qed.
 
-(* ... and open is refused iff a file is open; otherwise its outcome is that of FileContext::from *)
+(* ... and open is refused iff a file is open (the err: reply shows the files of the open context:
+   [files_of], 0 on the archive path while the extraction is pending or yielded nothing); otherwise its
+   outcome is that of FileContext::from.  On its archive path (some name is an archive or
+   archive!/glob) the new context has NO file stream and a pending extraction *)
 Theorem C15_open_iff : forall st h st' ws t o,
   run st h = Ok (st', ws) -> command_of t = "open" ->
   exists st'' r, step st' t o = Ok (st'', [r]) /\
-    (spec_open (spec_run (abs st) h ws) = true -> r = RErr EOpenAlready /\ st'' = st') /\
+    (spec_open (spec_run (abs st) h ws) = true -> r = RErr (EOpenAlready (files_of st')) /\ st'' = st') /\
     (spec_open (spec_run (abs st) h ws) = false ->
        match o_open o with
-       | OpenOk _ _ plugins => r = ROk (OkOpen (N.of_nat (List.length plugins))) /\ abs st'' = Some []
+       | OpenOk _ _ plugins => r = ROk (OkOpen (N.of_nat (List.length plugins))) /\ abs st'' = Some [] /\
+                               extracting_of st'' = o_archive o /\
+                               files_of st'' = (if o_archive o then 0 else o_nfiles o)
        | OpenErr => r = RErr EOpenFailed /\ st'' = st'
        end).
 Proof.
   intros st h st' ws t o H Hc. rewrite <- (run_abs h st st' ws H). exact (step_open_reply st' t o Hc).
+Qed.
+
+(* open while an archive context without any file stream is open (extraction pending, or finished with
+   nothing usable): in EVERY such state, after any number of passes of process_file_context with any
+   arrivals, any command is answered by exactly one frame and a further open by err: (0 files) *)
+Theorem C15_open_on_empty_archive_context : forall st t o, command_of t = "open" ->
+  spec_open (abs st) = true -> files_of st = 0 ->
+  step st t o = Ok (st, [RErr (EOpenAlready 0)]).
+Proof.
+  intros st t o Hc Ho Hf. destruct (step_open_reply st t o Hc) as [st' [r [H [H1 _]]]].
+  destruct (H1 Ho) as [-> ->]. rewrite Hf in H. exact H.
 Qed.
 
 (* a stream id is usable exactly between its creation and stop / close / renewal / completion: after
@@ -218,15 +234,27 @@ Example C15_nonvacuous :
              it [] "plugin_cmd {..}" (oj (JGood "FileTransfer") false);
              it [] "close" o0;
              it [] " close" o0;
+             it [] "open {..zip!/nothing*..}" (oof (OpenOk CAll false []) true 0);
+             it [] "open {..}" ok_open;
+             it [] "stream {}" (os (sk false 0 20 0 0 0 0));
+             it [TExtracted 0] "open {..}" ok_open;
+             it [] "close" o0;
+             it [] "open {..zip..}" (oof (OpenOk CAll true []) true 0);
+             it [] "open {..}" ok_open;
+             it [TExtracted 2; TMsgs 15] "open {..}" ok_open;
+             it [] "close" o0;
              it [] "open {..}" ok_open ] in
   forallb (fun i => not_one_pass_open (t_orc i)) h = true /\
   exists st', run_loop (init_state 1) h =
-    Ok (st', [ [RErr ENoFileOpened]; [ROk (OkOpen 1)]; [RErr EOpenAlready];
+    Ok (st', [ [RErr ENoFileOpened]; [ROk (OkOpen 1)]; [RErr (EOpenAlready 1)];
                [ROk (OkStream true 1 0 0 0)]; [ROk (OkStream false 2 1 0 0)];
                [ROk (OkWindow 1 3 2 7)]; [RErr (EIdNotFound 2)]; [RErr (EIdNotFound 1)];
                [RErr ESearchParams]; [ROk (OkSearch 3)]; [ROk (OkStop 3)]; [RErr (EIdNotFound 3)];
-               [ROk OkPluginCmd]; [ROk OkClose]; [RUnknown " close"]; [ROk (OkOpen 1)] ])
-    /\ abs st' = Some [] /\ st_next_id st' = 4.
+               [ROk OkPluginCmd]; [ROk OkClose]; [RUnknown " close"];
+               [ROk (OkOpen 0)]; [RErr (EOpenAlready 0)]; [ROk (OkStream true 4 0 0 0)]; [RErr (EOpenAlready 0)];
+               [ROk OkClose]; [ROk (OkOpen 0)]; [RErr (EOpenAlready 0)]; [RErr (EOpenAlready 2)]; [ROk OkClose];
+               [ROk (OkOpen 1)] ])
+    /\ abs st' = Some [] /\ st_next_id st' = 5.
 Proof. cbv zeta. split; [reflexivity|]. eexists. split; [vm_compute; reflexivity|]. split; reflexivity. Qed.
 
 Print Assumptions C15_one_reply_no_crash.
@@ -235,6 +263,7 @@ Print Assumptions C15_state_consistent.
 Print Assumptions C15_err_keeps_state.
 Print Assumptions C15_file_open_iff.
 Print Assumptions C15_open_iff.
+Print Assumptions C15_open_on_empty_archive_context.
 Print Assumptions C15_stream_id_usable_iff.
 Print Assumptions C15_close_then_open.
 Print Assumptions C15_ids_fresh.
